@@ -46,6 +46,22 @@ var strLits = []lit{
 	{`'''SELECT "v" FROM "db"."rp"."m" WHERE "h" = 'a' AND "x" =~ /a\/b/'''`, "str", `SELECT "v" FROM "db"."rp"."m" WHERE "h" = 'a' AND "x" =~ /a\/b/`},
 	{"'''two\nlines'''", "str", "two\nlines"},
 	{"'''  // not a comment\n'''", "str", "  // not a comment\n"},
+	// line ends and control characters INSIDE a string are part of its value
+	{"'a\r\nb'", "str", "a\r\nb"},
+	{"'a\rb'", "str", "a\rb"},
+	{"'a\tb'", "str", "a\tb"},
+	{"'\r\n'", "str", "\r\n"},
+	{"'''a\r\nb'''", "str", "a\r\nb"},
+	{"'''a\rb\r'''", "str", "a\rb\r"},
+	{"'''\ta\n\tb\r\n'''", "str", "\ta\n\tb\r\n"},
+	// strings that look like another literal kind stay strings
+	{`'1m'`, "str", `1m`},
+	{`'10'`, "str", `10`},
+	{`'1.5'`, "str", `1.5`},
+	{`'TRUE'`, "str", `TRUE`},
+	{`'/x/'`, "str", `/x/`},
+	{`'*'`, "str", `*`},
+	{`'-1'`, "str", `-1`},
 }
 
 var refLits = []lit{
@@ -58,6 +74,10 @@ var refLits = []lit{
 	{`"a/b"`, "ref", `a/b`},
 	{`"é"`, "ref", `é`},
 	{`""`, "ref", ``},
+	{"\"a\tb\"", "ref", "a\tb"},
+	{"\"a\r\nb\"", "ref", "a\r\nb"},
+	{"\"a\rb\"", "ref", "a\rb"},
+	{`"1m"`, "ref", `1m`},
 }
 
 var reLits = []lit{
@@ -75,6 +95,9 @@ var reLits = []lit{
 	{`/"/`, "re", `"`},
 	{`/[a-z]+\.[0-9]/`, "re", `[a-z]+\.[0-9]`},
 	{`/é/`, "re", `é`},
+	{"/a\tb/", "re", "a\tb"},
+	{"/a\rb/", "re", "a\rb"},
+	{"/a\r\nb/", "re", "a\r\nb"},
 }
 
 var durLits = []lit{
